@@ -54,6 +54,18 @@ _PATH_METHODS = {
 _WRITER_METHOD_NAMES = {'to_pickle': 0, 'to_csv': 0, 'to_parquet': 0, 'to_json': 0, 'to_hdf': 0, 'savefig': 0, 'to_feather': 0, 'tofile': 0}
 
 
+_MUTATORS = {'append', 'extend', 'update', 'add', 'setdefault', 'pop', 'popitem', 'clear', 'remove', 'discard', 'insert', 'sort', 'reverse', '__setitem__'}
+
+
+def _store_base(t):
+    """(receiver expression, attribute) for an attribute store `recv.attr = ...` or `recv.attr[k] = ...`."""
+    if isinstance(t, ast.Attribute):
+        return t.value, t.attr
+    if isinstance(t, ast.Subscript) and isinstance(t.value, ast.Attribute):
+        return t.value.value, t.value.attr + '[]'
+    return None, None
+
+
 def _mode_of(call: ast.Call, pos: int) -> Optional[str]:
     m = None
     if len(call.args) > pos and isinstance(call.args[pos], ast.Constant) and isinstance(call.args[pos].value, str):
@@ -235,7 +247,50 @@ class Effects:
             elif isinstance(node, (ast.With, ast.AsyncWith)):
                 for item in node.items:
                     events.append(Event('LOCK', self._term(item.context_expr, ctx), None, item.context_expr, node, [], 'with', ctx))
+            if isinstance(node, ast.Assert):
+                events.append(Event('ASSERT', self._term(node.test, ctx), None, node, node, [], 'assert', ctx))
+            # ---- state effects: attribute stores / in-place mutation of attributes / module-level mutable state
+            if isinstance(node, (ast.Assign, ast.AugAssign, ast.AnnAssign)):
+                targets = node.targets if isinstance(node, ast.Assign) else [node.target]
+                if not (isinstance(node, ast.AnnAssign) and node.value is None):
+                    for t in targets:
+                        for tt in (t.elts if isinstance(t, (ast.Tuple, ast.List)) else [t]):
+                            base, attr = _store_base(tt)
+                            if base is not None:
+                                events.append(Event('ATTR_STORE', self._term(base, ctx), None, node, node, [], attr, ctx))
+                            elif isinstance(tt, ast.Subscript) and isinstance(tt.value, ast.Name) and self._is_module_mutable(tt.value.id, ctx):
+                                events.append(Event('GLOBAL_STATE', None, None, node, node, [], f'store into module-level `{tt.value.id}`', ctx))
+            elif isinstance(node, ast.Call) and isinstance(node.func, ast.Attribute) and node.func.attr in _MUTATORS:
+                recv = node.func.value
+                if isinstance(recv, ast.Attribute):
+                    events.append(Event('ATTR_STORE', self._term(recv.value, ctx), None, node, node, [], f'{recv.attr}.{node.func.attr}()', ctx))
+                elif isinstance(recv, ast.Name) and self._is_module_mutable(recv.id, ctx):
+                    events.append(Event('GLOBAL_STATE', None, None, node, node, [], f'`{recv.id}.{node.func.attr}()` on module-level state', ctx))
+            elif isinstance(node, ast.Name) and isinstance(node.ctx, ast.Load) and self._is_module_mutable(node.id, ctx):
+                events.append(Event('GLOBAL_STATE', None, None, node, node, [], f'read of module-level mutable `{node.id}`', ctx))
+            elif isinstance(node, ast.Call) and isinstance(node.func, ast.Name) and node.func.id == 'setattr' and len(node.args) >= 2:
+                events.append(Event('ATTR_STORE', self._term(node.args[0], ctx), None, node, node, [], 'setattr', ctx))
+        if any(d.split('.')[-1] in ('lru_cache', 'cache', 'cached_property') for d in f.decorators):
+            events.append(Event('GLOBAL_STATE', None, None, f.node, f.node, [], f'`{f.short}` is memoised by functools ({", ".join(f.decorators)})', ctx))
         return events
+
+    def _is_module_mutable(self, name: str, ctx: Ctx) -> bool:
+        f = ctx.func
+        g = f
+        while g is not None:
+            if name in self.typer._binding_names(g):
+                return False
+            g = g.parent
+        r = self.typer.prog.resolve_global(f.module, name)
+        if r is None or r[0] != 'var':
+            return False
+        val = r[1].globals.get(r[2])
+        if isinstance(val, (ast.Dict, ast.List, ast.Set, ast.DictComp, ast.ListComp, ast.SetComp)):
+            return True
+        if isinstance(val, ast.Call):
+            nm = (_dotted(val.func) or '').split('.')[-1]
+            return nm in ('dict', 'list', 'set', 'defaultdict', 'OrderedDict', 'WeakValueDictionary', 'WeakKeyDictionary', 'Counter', 'deque', 'local')
+        return False
 
     def _expand(self, tg: Target, exact: bool, name: Optional[str]) -> List[Target]:
         if exact or tg.recv is None or name is None or tg.func.parent is not None:
@@ -279,7 +334,11 @@ class Effects:
             if how == 'ctor':
                 mapping[('self',)] = ('new', tg.recv[1].short)
             else:
-                mapping.lazy(('self',), (lambda: self._term(recv_expr, ctx)) if recv_expr is not None else (lambda: opaque('<receiver>')))
+                is_super = isinstance(recv_expr, ast.Call) and isinstance(recv_expr.func, ast.Name) and recv_expr.func.id == 'super'
+                if is_super:
+                    mapping[('self',)] = ('self',)
+                else:
+                    mapping.lazy(('self',), (lambda: self._term(recv_expr, ctx)) if recv_expr is not None else (lambda: opaque('<receiver>')))
             params = params[1:]
         elif f.parent is None:
             mapping[('self',)] = opaque('<no receiver>')
@@ -415,3 +474,16 @@ def is_under(a, b) -> bool:
             a = strip_path_wrappers(a[1])
             continue
         return False
+
+
+def receiver_root(t):
+    """Strip attribute / index chains: the object a state effect ultimately lands on."""
+    while isinstance(t, tuple) and t and t[0] in ('attr', 'index') :
+        t = t[1]
+    return t
+
+
+def is_preexisting(t) -> bool:
+    """The receiver of a state effect existed before the analysed call (self, a parameter, or something reached from them)."""
+    r = receiver_root(t) if t is not None else None
+    return r is not None and (r == ('self',) or (isinstance(r, tuple) and r and r[0] == 'p'))
